@@ -18,11 +18,13 @@ abbrev sc (ks : List String) : List Target := ks.map .score
 abbrev vs (ns : List String) : List Target := ns.map .var
 abbrev half : KV := .flt (mkRat 1 2)
 
-/-- beat: both beat sequences are trimmed (`trim_beats`, first 5 s by default), then the six metrics. -/
+/-- beat: both beat sequences are validated (`validate`, so that malformed arrays are rejected before trimming can
+    hide them), then trimmed (`trim_beats`, first 5 s by default), then the six metrics. -/
 def beat : Spec :=
   let a := [v "reference_beats", v "estimated_beats"]
   { inputs := ["reference_beats", "estimated_beats"]
     calls := [
+      { fn := "beat.validate", targets := [], args := a, passKw := false },
       { fn := "beat.trim_beats", targets := vs ["reference_beats"], args := [v "reference_beats"] },
       { fn := "beat.trim_beats", targets := vs ["estimated_beats"], args := [v "estimated_beats"] },
       { fn := "beat.f_measure", targets := sc ["F-measure"], args := a },
